@@ -2,6 +2,7 @@ package harness
 
 import (
 	"fmt"
+	"sort"
 	"strings"
 	"time"
 
@@ -63,12 +64,32 @@ func (h *Hist) Strings() []string {
 // CheckLin checks the history against a nondeterministic sequential model
 // whose states are strings.
 func CheckLin(w *W, h *Hist, init string, step func(state string, in, out any) []string, sig string) {
+	switch linResult(w, h, init, step) {
+	case porcupine.Illegal:
+		w.Violate("non-linearizable", sig, "history has no linearization against the sequential model:\n  %s", strings.Join(h.Strings(), "\n  "))
+	}
+}
+
+// Filter returns a copy of the history holding the operations keep accepts.
+func (h *Hist) Filter(keep func(*HOp) bool) *Hist {
+	out := &Hist{clock: h.clock}
+	for _, op := range h.ops {
+		if keep(op) {
+			out.ops = append(out.ops, op)
+		}
+	}
+	return out
+}
+
+// linResult runs porcupine; Unknown (time-out, history too long, empty) is
+// recorded as inconclusive by the caller's W.
+func linResult(w *W, h *Hist, init string, step func(state string, in, out any) []string) porcupine.CheckResult {
 	if len(h.ops) == 0 {
-		return
+		return porcupine.Ok
 	}
 	if len(h.ops) > 60 {
 		w.Inconclusive("history-too-long")
-		return
+		return porcupine.Unknown
 	}
 	nm := porcupine.NondeterministicModel{
 		Init: func() []interface{} { return []interface{}{init} },
@@ -94,10 +115,58 @@ func CheckLin(w *W, h *Hist, init string, step func(state string, in, out any) [
 		ops = append(ops, o)
 	}
 	res := porcupine.CheckOperationsTimeout(nm.ToModel(), ops, 20*time.Second)
-	switch res {
-	case porcupine.Illegal:
-		w.Violate("non-linearizable", sig, "history has no linearization against the sequential model:\n  %s", strings.Join(h.Strings(), "\n  "))
-	case porcupine.Unknown:
+	if res == porcupine.Unknown {
 		w.Inconclusive("porcupine-unknown")
+	}
+	return res
+}
+
+// blockedObs is the input of a synthetic observation "operation Op was still
+// blocked when the system was quiescent": legal only in a state in which Op's
+// blocking condition holds. It is placed at the quiescence point, and the
+// blocked operations' own invocations are moved behind it (a blocked
+// operation has had no effect, so it is as good as invoked afterwards).
+const blockedPrefix = "Blocked:"
+
+// ObserveBlocked adds one observation per pending operation (harness, at
+// quiescence) and returns how many there were.
+func (h *Hist) ObserveBlocked(mk func(op string) any, nameOf func(in any) string) int {
+	var pend []*HOp
+	for _, op := range h.ops {
+		if op.Pending {
+			pend = append(pend, op)
+		}
+	}
+	for _, op := range pend {
+		o := h.Invoke(90, mk(blockedPrefix+nameOf(op.In)))
+		h.Return(o, struct{}{})
+	}
+	for _, op := range pend {
+		op.Call = h.Tick()
+	}
+	return len(pend)
+}
+
+// checkBlockedAtQuiescence is C07's model-based clause: the history without
+// the observations must be linearizable (otherwise it is C05/C06's business and
+// nothing is judged here); with them it must still be.
+func checkBlockedAtQuiescence(w *W, h *Hist, init string, step func(state string, in, out any) []string, isObs func(in any) bool, typ string) {
+	base := h.Filter(func(op *HOp) bool { return !isObs(op.In) })
+	switch linResult(w, base, init, step) {
+	case porcupine.Illegal:
+		w.Inconclusive("not-linearizable-without-observations")
+		return
+	case porcupine.Unknown:
+		return
+	}
+	if linResult(w, h, init, step) == porcupine.Illegal {
+		var names []string
+		for _, op := range h.ops {
+			if isObs(op.In) {
+				names = append(names, fmt.Sprint(op.In))
+			}
+		}
+		sort.Strings(names)
+		w.Violate("blocked-while-enabled", "blocked-while-enabled:"+typ+":model:"+names[0], "at quiescence %v although, in every linearization of the completed operations, the condition of at least one of them holds (or the container is closed):\n  %s", names, strings.Join(h.Strings(), "\n  "))
 	}
 }
